@@ -15,6 +15,20 @@ PROPS = {
             "note": "Trusted: the odometer reference model (textbook leap rule), rustc. Nothing is said about non-ISO calendars (C16).",
         },
     },
+    "C04": {
+        "builds": ["chk", "rel"],
+        "rule": ("add/subtract: hostile dates (month ends 28..31, Feb 29, Jan 1/Dec 31, both limits +-40 days, years -3..3, negative years, random) x sign-uniform durations "
+                 "(each unit alone and mixed; magnitudes {0,1,11,12,13,7,28..31,365,366,1e5, range size +-2, 2^31 +-1, 2^32-1, random}; time units contributing whole days) x both "
+                 "overflow modes, compared with the AddISODate model; until/since: pairs at distances {0, +-1 d, ~1 month, ~1 year, centuries, whole range, limits} x four largest "
+                 "units compared with the DifferenceISODate model and with the laws add(until)=end, since=-until, balanced/sign-uniform, day distance; since(rounded, mode m) = "
+                 "-until(rounded, mirrored m). non-trivial = month-end/leap-day/out-of-range (add) or month-end/long/negative span (diff); distinct by case fingerprint"),
+        "assumptions": ["refmodel::date transcribes AddISODate/DifferenceISODate from the specification; the model itself satisfies the inverse law (unit test)"],
+        "manifest": {
+            "technique": "runtime monitoring: transcribed-specification reference model plus algebraic laws evaluated on every observed add/subtract/until/since call, two builds",
+            "text": "Each observed result of PlainDate add/subtract/until/since is compared with a clean-room AddISODate/DifferenceISODate model (including the error kind at the limits and under reject) and the laws stated in the property are evaluated on the implementation's own outputs. Inputs are generated, not enumerated: month ends, leap days, range limits, i32/u32 extremes and random values; both the overflow-checking and the release build are exercised.",
+            "note": "Trusted: refmodel::date, refmodel::civil. A panicking operation is counted inconclusive here and reported by C03.",
+        },
+    },
     "C06": {
         "builds": ["chk", "rel"],
         "rule": ("seeded valid time-only durations with hostile magnitudes (single huge fields up to 9.007e24 ns, fields beyond 2^63 ns, mixed fields, both signs; "
